@@ -21,6 +21,10 @@ func init() { fw.Register(&c12{}) }
 
 func (*c12) ID() string    { return "C12" }
 func (*c12) Level() string { return "translation_validation" }
+
+// termination is not this property's claim (C04/C05 decide it): a case that exhausts the watchdog's
+// CPU allowance is a generated program that is too expensive, counted as inconclusive
+func (*c12) Config(tier string) fw.Config { return fw.Config{CrashInconclusive: true} }
 func (*c12) NumCases(tier string) int {
 	if tier == "thorough" {
 		return 200000
